@@ -1,16 +1,17 @@
-(* Per-run source tie for the CRC kernels: the MiniPy interpretation of the CURRENT source text of
-   rtcmhelpers.calc_crc24q / crc2bytes / len2bytes (translated by tools/gen_src.py into PyRtcmGen.Src) equals the
-   hand-written model (Model/Crc.v) for EVERY argument.  Together with Properties/C08 (model = GF(2) remainder) this
-   carries the CRC theorems to the source text itself, not to a sample of its behaviour. *)
+(* Per-run source tie: the MiniPy interpretation of the CURRENT source text of
+     rtcmhelpers.calc_crc24q / crc2bytes / len2bytes   and   RTCMMessage.serialize / RTCMMessage.identity
+   (translated by tools/gen_src.py into PyRtcmGen.Src) equals the hand-written model (Model/Crc.v, Model/Message.v) for
+   EVERY argument.  Together with Properties/C08 (model = GF(2) remainder) this carries the CRC theorems to the source
+   text itself, not to a sample of its behaviour; src_serialize_eq / src_identity_eq do the same for the framing of a
+   payload and for the identity string (a method is a function of the value of self._payload, see Src/MiniPy.v). *)
 From Coq Require Import ZArith NArith List String Lia.
 From Coq.Strings Require Import Byte.
-From PyRtcm Require Import Base.Bytes Model.Crc Src.MiniPy Src.MiniPyLemmas.
+From PyRtcm Require Import Base.Bytes Base.Dec Model.Types Model.Crc Model.Message Src.MiniPy Src.MiniPyLemmas.
+From PyRtcm Require Import Proofs.ObjIdentity.
 From PyRtcmGen Require Import Src.
 Import ListNotations.
 Open Scope string_scope.
 Open Scope Z_scope.
-
-Definition C0 : calls := fun _ => None.
 
 (* the shape of calc_crc24q's frame: parameter, then locals in order of first assignment *)
 Definition st (m:bytes) (c:N) (o u:pval) : env :=
@@ -18,98 +19,100 @@ Definition st (m:bytes) (c:N) (o u:pval) : env :=
 
 Ltac run := cbv -[Z.shiftl Z.shiftr Z.lxor Z.land Z.lor Z.of_N Z.eqb N.shiftl N.lxor N.land N.eqb bN bitstep octet_step
                     fold_left to_bytes Z.to_N Z.of_nat List.length calc_crc24q crc_reg].
+(* environment bookkeeping: only closed strings are compared *)
+Ltac names := cbv [lookup update String.eqb Ascii.eqb Bool.eqb].
+(* [run src_prog f] = [call <the functions after f> src_f] *)
+Ltac at_func := unfold run, src_prog; rewrite ?link_skip by reflexivity; rewrite link_here.
 
 Definition inner_body := [SAug "crc" OShl (EInt 1); SIf (EBin OAnd (EVar "crc") (EInt 16777216)) [SAug "crc" OXor (EVar "poly")] []].
-
-Lemma inner_ok m c o u v :
-  exec_list C0 inner_body (update "_" v (st m c o u)) = POk (FNext (st m (bitstep c) o v)).
-Proof.
-  run. change 1 with (Z.of_N 1). rewrite of_N_shiftl.
-  change 16777216 with (Z.of_N 16777216). rewrite of_N_land, of_N_eqb0.
-  unfold bitstep. cbv zeta. change (Z.of_N 1) with 1.
-  destruct (N.eqb (N.land (N.shiftl c 1) 16777216) 0); [reflexivity|].
-  change 25578747 with (Z.of_N poly) at 2. rewrite of_N_lxor. reflexivity.
-Qed.
-
 Definition outer_body := [SAug "crc" OXor (EBin OShl (EVar "octet") (EInt 16)); SFor "_" (IRange (EInt 8)) inner_body].
 
-Lemma outer_ok m c o u b :
-  exec_list C0 outer_body (update "octet" (PInt (Z.of_N (bN b))) (st m c o u)) =
-  POk (FNext (st m (octet_step c b) (PInt (Z.of_N (bN b))) (PInt 7))).
-Proof.
-  unfold outer_body. rewrite exec_list_cons, exec_aug.
-  replace (eval C0 (EBin OXor (EVar "crc") (EBin OShl (EVar "octet") (EInt 16))) (update "octet" (PInt (Z.of_N (bN b))) (st m c o u)))
-    with (@POk pval (PInt (Z.of_N (N.lxor c (N.shiftl (bN b) 16))))).
-  2:{ run. change 16 with (Z.of_N 16). now rewrite of_N_shiftl, of_N_lxor. }
-  change (update "crc" (PInt (Z.of_N (N.lxor c (N.shiftl (bN b) 16)))) (update "octet" (PInt (Z.of_N (bN b))) (st m c o u)))
-    with (st m (N.lxor c (N.shiftl (bN b) 16)) (PInt (Z.of_N (bN b))) u).
-  rewrite exec_list_cons, exec_for.
-  change (iter_values C0 (IRange (EInt 8)) _) with (@POk (list pval) (map (fun i => PInt (Z.of_nat i)) (seq 0 8))).
-  cbv iota beta.
-  rewrite (loop_shape N (fun c' u' => st m c' (PInt (Z.of_N (bN b))) u') (fun c' _ => bitstep c')).
-  2:{ intros a u0 v. apply inner_ok. }
-  rewrite exec_list_nil. rewrite fold_const. reflexivity.
-Qed.
+Section Calc.
+  Variable C : calls.      (* calc_crc24q calls nothing: any call environment *)
 
-Theorem src_calc_crc24q_eq_model : forall m,
-  call C0 src_calc_crc24q (PBytes m) = POk (PInt (Z.of_N (calc_crc24q m))).
-Proof.
-  intro m. unfold call.
-  change (f_body src_calc_crc24q) with
-    [SAssign "poly" (EInt 25578747); SAssign "crc" (EInt 0); SFor "octet" (IBytes (EVar "message")) outer_body;
-     SReturn (EBin OAnd (EVar "crc") (EInt 16777215))].
-  change ((f_param src_calc_crc24q, PBytes m) :: map (fun x => (x, PUnbound)) (f_locals src_calc_crc24q))
-    with [("message", PBytes m); ("poly", PUnbound); ("crc", PUnbound); ("octet", PUnbound); ("_", PUnbound)].
-  rewrite exec_list_cons, exec_assign. cbn [eval]. cbv iota beta.
-  rewrite exec_list_cons, exec_assign. cbn [eval]. cbv iota beta.
-  change (update "crc" (PInt 0) (update "poly" (PInt 25578747) _)) with (st m 0 PUnbound PUnbound).
-  rewrite exec_list_cons, exec_for.
-  change (iter_values C0 (IBytes (EVar "message")) (st m 0 PUnbound PUnbound))
-    with (@POk (list pval) (map (fun x => PInt (Z.of_N (bN x))) m)).
-  cbv iota beta.
-  assert (L : forall l c o u, exists o' u',
-     loop (exec_list C0 outer_body) "octet" (map (fun x => PInt (Z.of_N (bN x))) l) (st m c o u)
-     = POk (FNext (st m (fold_left octet_step l c) o' u'))).
-  { induction l as [|b r IH]; intros c o u.
-    - exists o, u. reflexivity.
-    - cbn [map loop fold_left].
-      change (update "octet" (PInt (Z.of_N (bN b))) (st m c o u)) with (update "octet" (PInt (Z.of_N (bN b))) (st m c o u)).
-      rewrite outer_ok. apply IH. }
-  destruct (L m 0%N PUnbound PUnbound) as (o' & u' & ->).
-  rewrite exec_list_cons, exec_return.
-  replace (eval C0 (EBin OAnd (EVar "crc") (EInt 16777215)) (st m (fold_left octet_step m 0%N) o' u'))
-    with (@POk pval (PInt (Z.of_N (calc_crc24q m)))).
-  - reflexivity.
-  - run. change 16777215 with (Z.of_N 16777215). rewrite of_N_land. reflexivity.
-Qed.
+  Lemma inner_ok m c o u v :
+    exec_list C inner_body (update "_" v (st m c o u)) = POk (FNext (st m (bitstep c) o v)).
+  Proof.
+    run. change 1 with (Z.of_N 1). rewrite of_N_shiftl.
+    change 16777216 with (Z.of_N 16777216). rewrite of_N_land, of_N_eqb0.
+    unfold bitstep. cbv zeta. change (Z.of_N 1) with 1.
+    destruct (N.eqb (N.land (N.shiftl c 1) 16777216) 0); [reflexivity|].
+    change 25578747 with (Z.of_N poly) at 2. rewrite of_N_lxor. reflexivity.
+  Qed.
 
-(* linking: crc2bytes calls calc_crc24q; OverflowError of int.to_bytes = None of the model *)
+  Lemma outer_ok m c o u b :
+    exec_list C outer_body (update "octet" (PInt (Z.of_N (bN b))) (st m c o u)) =
+    POk (FNext (st m (octet_step c b) (PInt (Z.of_N (bN b))) (PInt 7))).
+  Proof.
+    unfold outer_body. rewrite exec_list_cons, exec_aug.
+    replace (eval C (EBin OXor (EVar "crc") (EBin OShl (EVar "octet") (EInt 16))) (update "octet" (PInt (Z.of_N (bN b))) (st m c o u)))
+      with (@POk pval (PInt (Z.of_N (N.lxor c (N.shiftl (bN b) 16))))).
+    2:{ run. change 16 with (Z.of_N 16). now rewrite of_N_shiftl, of_N_lxor. }
+    change (update "crc" (PInt (Z.of_N (N.lxor c (N.shiftl (bN b) 16)))) (update "octet" (PInt (Z.of_N (bN b))) (st m c o u)))
+      with (st m (N.lxor c (N.shiftl (bN b) 16)) (PInt (Z.of_N (bN b))) u).
+    rewrite exec_list_cons, exec_for.
+    change (iter_values C (IRange (EInt 8)) _) with (@POk (list pval) (map (fun i => PInt (Z.of_nat i)) (seq 0 8))).
+    cbv iota beta.
+    rewrite (loop_shape N (fun c' u' => st m c' (PInt (Z.of_N (bN b))) u') (fun c' _ => bitstep c')).
+    2:{ intros a u0 v. apply inner_ok. }
+    rewrite exec_list_nil. rewrite fold_const. reflexivity.
+  Qed.
+
+  Theorem src_calc_crc24q_eq_model : forall m,
+    call C src_calc_crc24q (PBytes m) = POk (PInt (Z.of_N (calc_crc24q m))).
+  Proof.
+    intro m. unfold call.
+    change (f_body src_calc_crc24q) with
+      [SAssign "poly" (EInt 25578747); SAssign "crc" (EInt 0); SFor "octet" (IBytes (EVar "message")) outer_body;
+       SReturn (EBin OAnd (EVar "crc") (EInt 16777215))].
+    change ((f_param src_calc_crc24q, PBytes m) :: map (fun x => (x, PUnbound)) (f_locals src_calc_crc24q))
+      with [("message", PBytes m); ("poly", PUnbound); ("crc", PUnbound); ("octet", PUnbound); ("_", PUnbound)].
+    rewrite exec_list_cons, exec_assign. cbn [eval]. cbv iota beta.
+    rewrite exec_list_cons, exec_assign. cbn [eval]. cbv iota beta.
+    change (update "crc" (PInt 0) (update "poly" (PInt 25578747) _)) with (st m 0 PUnbound PUnbound).
+    rewrite exec_list_cons, exec_for.
+    change (iter_values C (IBytes (EVar "message")) (st m 0 PUnbound PUnbound))
+      with (@POk (list pval) (map (fun x => PInt (Z.of_N (bN x))) m)).
+    cbv iota beta.
+    assert (L : forall l c o u, exists o' u',
+       loop (exec_list C outer_body) "octet" (map (fun x => PInt (Z.of_N (bN x))) l) (st m c o u)
+       = POk (FNext (st m (fold_left octet_step l c) o' u'))).
+    { induction l as [|b r IH]; intros c o u.
+      - exists o, u. reflexivity.
+      - cbn [map loop fold_left]. rewrite outer_ok. apply IH. }
+    destruct (L m 0%N PUnbound PUnbound) as (o' & u' & ->).
+    rewrite exec_list_cons, exec_return.
+    replace (eval C (EBin OAnd (EVar "crc") (EInt 16777215)) (st m (fold_left octet_step m 0%N) o' u'))
+      with (@POk pval (PInt (Z.of_N (calc_crc24q m)))).
+    - reflexivity.
+    - run. change 16777215 with (Z.of_N 16777215). rewrite of_N_land. reflexivity.
+  Qed.
+End Calc.
+
+(* OverflowError of int.to_bytes = None of the model *)
 Definition opt_res (o:option bytes) : pres pval := match o with Some b => POk (PBytes b) | None => PErr PyOverflow end.
 
-Theorem src_calc_eq : forall m, run src_prog "calc_crc24q" (PBytes m) = POk (PInt (Z.of_N (calc_crc24q m))).
-Proof. intro m. exact (src_calc_crc24q_eq_model m). Qed.
-
-Theorem src_crc2bytes_eq : forall m, run src_prog "crc2bytes" (PBytes m) = opt_res (crc2bytes m).
+(* crc2bytes in any call environment whose "calc_crc24q" is the model's *)
+Lemma crc2bytes_body C g m :
+  C "calc_crc24q" = Some g -> (forall x, g (PBytes x) = POk (PInt (Z.of_N (calc_crc24q x)))) ->
+  call C src_crc2bytes (PBytes m) = opt_res (crc2bytes m).
 Proof.
-  intro m. unfold run.
-  change (link src_prog "crc2bytes") with (Some (call (link [("calc_crc24q", src_calc_crc24q)]) src_crc2bytes)).
-  cbv iota beta. unfold call.
+  intros HC HG. unfold call.
   change (f_body src_crc2bytes) with [SReturn (EToBytesBig (ECall "calc_crc24q" (EVar "message")) 3)].
   change ((f_param src_crc2bytes, PBytes m) :: map (fun x => (x, PUnbound)) (f_locals src_crc2bytes)) with [("message", PBytes m)].
   rewrite exec_list_cons, exec_return.
-  cbn [eval]. change (link [("calc_crc24q", src_calc_crc24q)] "calc_crc24q") with (Some (call C0 src_calc_crc24q)).
-  cbv iota beta. change (lookup "message" [("message", PBytes m)]) with (Some (PBytes m)). cbv iota beta.
-  rewrite src_calc_crc24q_eq_model. cbv iota beta.
+  cbn [eval]. rewrite HC.
+  change (lookup "message" [("message", PBytes m)]) with (Some (PBytes m)). cbv iota beta.
+  rewrite HG. cbv iota beta.
   replace (Z.of_N (calc_crc24q m) <? 0) with false by (symmetry; apply Z.ltb_ge; lia).
   change (3 <? 0) with false. cbn [orb]. rewrite N2Z.id. change (Z.to_nat 3) with 3%nat.
   unfold crc2bytes. destruct (to_bytes 3 (calc_crc24q m)); reflexivity.
 Qed.
 
-Theorem src_len2bytes_eq : forall p, run src_prog "len2bytes" (PBytes p) = opt_res (len2bytes p).
+(* len2bytes calls nothing *)
+Lemma len2bytes_body C p : call C src_len2bytes (PBytes p) = opt_res (len2bytes p).
 Proof.
-  intro p. unfold run.
-  change (link src_prog "len2bytes") with (Some (call (link (tl src_prog)) src_len2bytes)).
-  cbv iota beta. unfold call.
+  unfold call.
   change (f_body src_len2bytes) with [SReturn (EToBytesBig (ELen (EVar "payload")) 2)].
   change ((f_param src_len2bytes, PBytes p) :: map (fun x => (x, PUnbound)) (f_locals src_len2bytes)) with [("payload", PBytes p)].
   rewrite exec_list_cons, exec_return.
@@ -120,9 +123,116 @@ Proof.
   destruct (to_bytes 2 (N.of_nat (List.length p))); reflexivity.
 Qed.
 
+Theorem src_calc_eq : forall m, run src_prog "calc_crc24q" (PBytes m) = POk (PInt (Z.of_N (calc_crc24q m))).
+Proof. intro m. at_func. apply src_calc_crc24q_eq_model. Qed.
+
+Theorem src_crc2bytes_eq : forall m, run src_prog "crc2bytes" (PBytes m) = opt_res (crc2bytes m).
+Proof.
+  intro m. at_func. eapply crc2bytes_body.
+  - rewrite link_here. reflexivity.
+  - intro x. apply src_calc_crc24q_eq_model.
+Qed.
+
+Theorem src_len2bytes_eq : forall p, run src_prog "len2bytes" (PBytes p) = opt_res (len2bytes p).
+Proof. intro p. at_func. apply len2bytes_body. Qed.
+
+(* ================= RTCMMessage.serialize / RTCMMessage.identity ================= *)
+(* image of the model's outcomes among MiniPy results; the models of these two methods only produce Ok, Foreign XOverflow
+   (int.to_bytes) and Foreign XIndex (payload too short); anything else has no MiniPy counterpart *)
+Definition img_exc {A} (o:outcome A) (ok:A -> pval) : pres pval :=
+  match o with
+  | Ok a => POk (ok a)
+  | Foreign XOverflow => PErr PyOverflow
+  | Foreign XIndex => PErr PyIndex
+  | _ => PErr (PyUnmodelled "outcome without a MiniPy image")
+  end.
+Definition img_bytes (o:outcome bytes) : pres pval := img_exc o PBytes.
+Definition img_str (o:outcome string) : pres pval := img_exc o PStr.
+
+(* ---- serialize, in any call environment whose len2bytes / crc2bytes are the model's ---- *)
+Section Serialize.
+  Variable C : calls.
+  Variables g1 g2 : pval -> pres pval.
+  Hypothesis C1 : C "len2bytes" = Some g1.
+  Hypothesis C2 : C "crc2bytes" = Some g2.
+  Hypothesis G1 : forall p, g1 (PBytes p) = opt_res (len2bytes p).
+  Hypothesis G2 : forall p, g2 (PBytes p) = opt_res (crc2bytes p).
+
+  Lemma serialize_body T p : t_rtcm_hdr T = src_const_RTCM_HDR ->
+    call C src_serialize (PBytes p) = img_bytes (serialize_payload T p).
+  Proof.
+    intro HT. unfold call, serialize_payload. rewrite HT.
+    cbv [src_serialize f_body f_param f_locals map].
+    (* size = len2bytes(self._payload) *)
+    rewrite exec_list_cons, exec_assign, eval_call, C1, eval_var. names. rewrite G1.
+    destruct (len2bytes p) as [size|]; [|reflexivity]. cbv [opt_res]. names.
+    (* message = RTCM_HDR + size + self._payload *)
+    rewrite exec_list_cons, exec_assign, !eval_bin, eval_bytes, !eval_var. names. cbv [bind2 binop_val].
+    (* crc = crc2bytes(message) *)
+    rewrite exec_list_cons, exec_assign, eval_call, C2, eval_var. names. rewrite G2.
+    rewrite <- app_assoc.
+    destruct (crc2bytes _) as [c|]; [|reflexivity]. cbv [opt_res]. names.
+    (* return message + crc *)
+    rewrite exec_list_cons, exec_return, eval_bin, !eval_var. names. reflexivity.
+  Qed.
+End Serialize.
+
+Theorem src_serialize_eq : forall T p, t_rtcm_hdr T = src_const_RTCM_HDR ->
+  run src_prog "serialize" (PBytes p) = img_bytes (serialize_payload T p).
+Proof.
+  intros T p HT. at_func.
+  eapply serialize_body; try exact HT.
+  - rewrite ?link_skip by reflexivity. rewrite link_here. reflexivity.
+  - rewrite ?link_skip by reflexivity. rewrite link_here. reflexivity.
+  - intro q. apply len2bytes_body.
+  - intro q. eapply crc2bytes_body.
+    + rewrite ?link_skip by reflexivity. rewrite link_here. reflexivity.
+    + intro x. apply src_calc_crc24q_eq_model.
+Qed.
+
+(* ---- identity (calls nothing) ---- *)
+Lemma mid_Z b0 b1 : Z.lor (Z.shiftl (Z.of_N (bN b0)) 4) (Z.shiftr (Z.of_N (bN b1)) 4) = Z.of_N (msgnum b0 b1).
+Proof.
+  unfold msgnum. change 4 with (Z.of_N 4). now rewrite of_N_shiftl, of_N_shiftr, of_N_lor.
+Qed.
+Lemma sub_Z b1 b2 :
+  Z.lor (Z.shiftl (Z.land (Z.of_N (bN b1)) 1) 7) (Z.shiftr (Z.of_N (bN b2)) 1) = Z.of_N (subtype b1 b2).
+Proof.
+  unfold subtype. change 1 with (Z.of_N 1). change 7 with (Z.of_N 7).
+  now rewrite of_N_land, of_N_shiftl, of_N_shiftr, of_N_lor.
+Qed.
+
+Ltac run_id := cbv -[Z.shiftl Z.shiftr Z.lor Z.land Z.of_N Z.eqb N.eqb bN msgnum subtype str_int fmt03d_int str_of_N ddd append].
+
+Section Identity.
+  Variable C : calls.
+
+  Lemma identity_body p : call C src_identity (PBytes p) = img_str (identity p).
+  Proof.
+    destruct p as [|b0 [|b1 [|b2 rest]]].
+    - reflexivity.
+    - reflexivity.
+    - run_id. rewrite !mid_Z. change 4076 with (Z.of_N 4076). rewrite of_N_eqb.
+      destruct (N.eqb (msgnum b0 b1) 4076); [reflexivity|].
+      run_id. rewrite str_int_of_N by apply msgnum_lt. reflexivity.
+    - run_id. rewrite !mid_Z, !sub_Z. change 4076 with (Z.of_N 4076). rewrite of_N_eqb.
+      destruct (N.eqb (msgnum b0 b1) 4076).
+      + run_id. rewrite str_int_of_N by apply msgnum_lt.
+        rewrite fmt03d_int_of_N by (pose proof (subtype_lt b1 b2); lia). reflexivity.
+      + run_id. rewrite str_int_of_N by apply msgnum_lt. reflexivity.
+  Qed.
+End Identity.
+
+Theorem src_identity_eq : forall p, run src_prog "identity" (PBytes p) = img_str (identity p).
+Proof. intro p. at_func. apply identity_body. Qed.
+
 Goal True. idtac "PA:src_calc_eq". Abort.
 Print Assumptions src_calc_eq.
 Goal True. idtac "PA:src_crc2bytes_eq". Abort.
 Print Assumptions src_crc2bytes_eq.
 Goal True. idtac "PA:src_len2bytes_eq". Abort.
 Print Assumptions src_len2bytes_eq.
+Goal True. idtac "PA:src_serialize_eq". Abort.
+Print Assumptions src_serialize_eq.
+Goal True. idtac "PA:src_identity_eq". Abort.
+Print Assumptions src_identity_eq.
